@@ -1756,6 +1756,16 @@ func runC17(c *ctx) {
 				mode, _ := strconv.Atoi(f[3])
 				c17history(c, defs, d, mode, true, true)
 			}
+		case len(f) == 9 && f[0] == "c17stale":
+			if d := c17find(defs, f[1], f[2]); d != nil {
+				seg, _ := strconv.Atoi(f[4])
+				t := f[8]
+				if t == "-" {
+					t = ""
+				}
+				st := c17stale{kind: f[5], arg: c17unhex(f[6]), follow: f[7], t: t}
+				c17judgeStale(c, d, f[3], st, c17runStale(d, f[3], st, seg), c.replay, true)
+			}
 		case len(f) == 2 && f[0] == "c17user":
 			sd, _ := strconv.ParseUint(f[1], 10, 64)
 			c17user(c, []uint64{sd}, true)
@@ -1844,6 +1854,50 @@ func runC17(c *ctx) {
 	}
 	c.res.Exhaustive = true
 	c.res.ExhaustiveOf = fmt.Sprintf("%d advertised names, %d embedded definitions and variants, all %d (current, target, secret) sessions", len(adv), len(defs), len(jobs))
+	// 4a. stale cache: the device changes level behind the driver, then AcquirePriv / SendConfigs / Close
+	{
+		type sjob struct {
+			d   *c17def
+			cur string
+			st  c17stale
+			seg int
+			out *c17staleOut
+		}
+		var sjobs []*sjob
+		for i, d := range defs {
+			if d.kind != "network" || !d.deviceBuildable() {
+				continue
+			}
+			cases := c17staleCases(d)
+			for k, st := range cases {
+				// start levels: the default's representative always; every other level in thorough
+				for li, l := range d.levels {
+					if d.rep(l.key) != l.key {
+						continue
+					}
+					if !c.thorough() && l.key != d.rep(d.dd) && (uint64(i+k+li)+c.seed)%4 != 0 {
+						continue
+					}
+					sjobs = append(sjobs, &sjob{d: d, cur: l.key, st: st, seg: (i + k) % 2})
+				}
+			}
+		}
+		sem := make(chan struct{}, vlib.Conc(16))
+		var wg sync.WaitGroup
+		for _, j := range sjobs {
+			wg.Add(1)
+			sem <- struct{}{}
+			go func(j *sjob) {
+				defer wg.Done()
+				j.out = c17runStale(j.d, j.cur, j.st, j.seg)
+				<-sem
+			}(j)
+		}
+		wg.Wait()
+		for _, j := range sjobs {
+			c17judgeStale(c, j.d, j.cur, j.st, j.out, c17staleLine(j.d, j.cur, j.st, j.seg), false)
+		}
+	}
 	// 4b. histories: load, mutate the instance through every handle, load the same name again
 	for i, d := range defs {
 		for _, mode := range []int{1, 0, 2} { // aliasing of two fresh instances first
